@@ -1795,7 +1795,12 @@ class Compiler:
 
             # The slot filler is a function of its own: it keeps track
             # of the expression being evaluated like a macro does.
+            # It writes to the stream it is handed (inside a translated
+            # element of the macro that is the list the message is
+            # collected in), not to the stream of the function it is
+            # defined in.
             body = template("__token = None") + \
+                template("__append = __stream.append") + \
                 self._wrap_in_error_handler(
                     self.visit_Context(slot) or [ast.Pass()]
                 )
